@@ -395,12 +395,12 @@ Require Import Consts.
    2 = Spec <> implementation (integers); 3 = outside the model (hex literal, float type) *)
 Definition chk_const (p : prim) (raw : string) (impl_accept : bool) : N :=
   match range_check p raw with
-  | None => 3
+  | None => 1
   | Some m =>
       if negb (Bool.eqb m impl_accept) then 1
       else match int_bits p with
            | Some _ => if Bool.eqb (spec_accept_int p raw) impl_accept then 0 else 2
-           | None => 0
+           | None => if impl_accept && l_hex (parse_literal raw) then 3 else 0
            end
   end.
 Definition chk_c17 (cs : list (prim * string * bool)) : list N :=
@@ -409,3 +409,42 @@ Definition chk_c17 (cs : list (prim * string * bool)) : list N :=
 Definition z_or (o : option Z) : Z := match o with Some v => v | None => (-999999999999)%Z end.
 Definition const_values (raw : string) : list Z :=
   [z_or (eval_c_int raw); z_or (eval_rust_int raw); z_or (math_int (parse_literal raw))].
+
+(* ---- C16 / C14: the PST -> AST model against the real parser ---- *)
+Require Import Pst proofs.PstProofs.
+Definition sx_aty (t : aty) : sx :=
+  match t with TBuffer => SL [SA 0] | TPrim p => SL [SA 1; sx_prim p] | TIface => SL [SA 2] | TCustom n => SL [SA 3; SS n] end.
+Definition sx_cdef (c : cdef) : sx := SL [SS (c_name c); sx_prim (c_ty c); SS (c_val c)].
+Definition sx_param (p : param) : sx := SL [SB (p_out p); sx_aty (p_ty p); sx_shape (p_shape p); SS (p_name p)].
+Definition sx_doc (d : option string) : sx := match d with None => SL [] | Some s => SL [SS s] end.
+Definition sx_inode (n : inode) : sx :=
+  match n with
+  | IConst c => SL [SA 0; sx_cdef c]
+  | IFunc f => SL [SA 1; SS (f_name f); SL (map sx_param (f_params f)); SB (f_optional f); sx_doc (f_doc f)]
+  | IError e => SL [SA 2; SS e]
+  end.
+Definition sx_node (n : node) : sx :=
+  match n with
+  | NInclude p => SL [SA 0; SS p]
+  | NConst c => SL [SA 1; sx_cdef c]
+  | NStruct s => SL [SA 2; SS (s_name s); SL (map (fun f => SL [SS (sf_name f); sx_aty (sf_ty f); SN (sf_cnt f)]) (s_fields s))]
+  | NIface i => SL [SA 3; SS (i_name i); match i_base i with None => SL [] | Some b => SL [SS b] end;
+                    SL (map sx_inode (i_nodes i))]
+  end.
+Definition sx_nodes (ns : list node) : sx := SL (map sx_node ns).
+
+(* [Debug model = real parser (debug build); code of the Release model: 0 ok, 1 reject,
+    100+site UB; tree is well-formed; Debug model = Release model] *)
+Definition chk_pst (ub : bool) (t : tree) (impl_ok : bool) (impl : list node) : list N :=
+  let d := pst_to_ast Debug ub t in
+  let r := pst_to_ast Release ub t in
+  [b2n (match d with
+        | Ok ns => impl_ok && sx_eqb (sx_nodes ns) (sx_nodes impl)
+        | Reject _ => negb impl_ok
+        | _ => false end);
+   match r with Ok _ => 0 | Reject _ => 1 | UB s => 100 + s | OutOfFuel => 3 end;
+   b2n (wf_idl t);
+   b2n (match d, r with
+        | Ok a, Ok b => sx_eqb (sx_nodes a) (sx_nodes b)
+        | Reject _, Reject _ => true
+        | _, _ => false end)].
